@@ -8,8 +8,13 @@
    written so far, followed by the Ends of the open masters (innermost first) that it supplies at the end of the input.  When some
    open master has a known size, the destination holds exactly what precedes the outermost such master.
    PARTIAL (second part): declared paths without global placeholders, one write call per tag, a destination that accepts
-   everything — the scope of [wconf]/[rconf], as in C01. *)
-From Ebml Require Import Base Tools Spec Writer Reader Pure Encode Proofs.Tactics Proofs.SpecProofs Proofs.WriterProofs Proofs.RoundTrip Proofs.WriteEnc Proofs.Nesting Proofs.Partial Proofs.Snapshots Proofs.AuditWriter.
+   everything — the scope of [wconf]/[rconf], as in C01.
+   Third part (I/O errors, Proofs/WriterIO.v; since the repair D28, /repo commit "fix: a write error of the destination lost tags that
+   had been accepted"): the hand-over step drains exactly what the destination took and keeps the rest, so no byte of an accepted tag
+   is ever dropped; a run against ANY destination is the run against the destination that accepts everything, except that some of
+   the bytes are still in the working buffer, and that a call reports an I/O error where the other run reports success.  FULL: every
+   call sequence, specification and destination script. *)
+From Ebml Require Import Base Tools Spec Writer Reader Pure Encode Proofs.Tactics Proofs.SpecProofs Proofs.WriterProofs Proofs.RoundTrip Proofs.WriteEnc Proofs.Nesting Proofs.Partial Proofs.Snapshots Proofs.AuditWriter Proofs.WriteScripts Proofs.WriterIO.
 
 (* bytes handed to the destination are never retracted or altered: every call only appends to them, for every call,
    state, specification and destination write script *)
@@ -43,15 +48,21 @@ Proof. intros sp. exact flush_closes_all. Qed.
 
 (* ---- what exactly is delivered (byte level) *)
 
-(* the hand-over step (private_flush: dest.write_all(working_buffer.drain(..))): the working buffer is emptied whatever happens and the
-   open masters are untouched; the destination receives a prefix [del] of the buffer: the whole buffer when the step succeeds;
-   when it fails the error is an I/O error and the undelivered rest [lost] (at least one byte) is gone — it is neither in the
-   buffer nor in the destination *)
+(* the hand-over step (private_flush: the write_all loop over the working buffer, then drain(..delivered)): the open masters are
+   untouched; the working buffer splits into a prefix [del], which the destination takes (it is appended to the delivered bytes), and
+   the [rest], which STAYS in the working buffer; when the step succeeds the rest is empty (the whole buffer went over, the buffer is
+   empty); when it fails the error is an I/O error and the rest has at least one byte (fix D28; before it the rest was dropped) *)
 Theorem C10_private_flush_bytes : forall st st' r, private_flush st = (st', r) ->
-  w_buf st' = [] /\ w_open st' = w_open st /\
-  exists del lost, w_buf st = del ++ lost /\ w_dest st' = w_dest st ++ del /\
-                   (r = WOk -> lost = []) /\ (r <> WOk -> lost <> [] /\ exists x, r = WErr (EIo x)).
+  w_open st' = w_open st /\
+  exists del rest, w_buf st = del ++ rest /\ w_dest st' = w_dest st ++ del /\ w_buf st' = rest /\
+                   (r = WOk -> rest = []) /\ (r <> WOk -> rest <> [] /\ exists x, r = WErr (EIo x)).
 Proof. exact private_flush_bytes. Qed.
+
+(* conservation: whatever the destination does and whatever the step returns, delivered bytes ++ working buffer is the same before and
+   after the hand-over step: no byte is dropped, duplicated or reordered *)
+Theorem C10_private_flush_nothing_lost : forall st st' r, private_flush st = (st', r) ->
+  w_dest st' ++ w_buf st' = w_dest st ++ w_buf st.
+Proof. exact private_flush_conserves. Qed.
 
 (* in particular a successful hand-over appends exactly the working buffer to the destination *)
 Theorem C10_flush_conserves : forall st st', private_flush st = (st', WOk) -> w_dest st' = w_dest st ++ w_buf st.
@@ -85,13 +96,21 @@ Theorem C10_into_inner_bytes : forall sp st st', wstep sp st OpIntoInner = (st',
 Proof. intros sp. exact flush_bytes. Qed.
 
 (* a failing flush()/into_inner(): either some master's content does not fit the size width it was started with — then the state is
-   unchanged (nothing delivered, nothing closed; fix D26); or the destination fails — then every master has been closed, the buffer
-   has been emptied and only a proper prefix [del] of the closed buffer has reached the destination: the rest is lost *)
+   unchanged (nothing delivered, nothing closed; fix D26); or the destination fails — then every master has been closed, a proper
+   prefix [del] of the closed buffer has reached the destination and the [rest] (at least one byte) is what the working buffer now
+   holds: the next hand-over continues with it (fix D28) *)
 Theorem C10_flush_failure : forall st st' e, flush st = (st', WErr e) ->
   (e = ESize /\ st' = st) \/
-  (exists x, e = EIo x /\ w_open st' = [] /\ w_buf st' = [] /\
-     exists b del lost, closed_buf (w_open st) (w_buf st) = Some b /\ b = del ++ lost /\ lost <> [] /\ w_dest st' = w_dest st ++ del).
+  (exists x, e = EIo x /\ w_open st' = [] /\
+     exists b del rest, closed_buf (w_open st) (w_buf st) = Some b /\ b = del ++ rest /\ rest <> [] /\
+                        w_dest st' = w_dest st ++ del /\ w_buf st' = rest).
 Proof. exact flush_failure. Qed.
+
+(* hence after a flush()/into_inner() that failed with an I/O error, delivered bytes ++ working buffer = the bytes delivered before ++
+   the closed buffer: exactly what a successful flush would have delivered (C10_flush_bytes), all of it still there *)
+Theorem C10_flush_failure_nothing_lost : forall st st' x, flush st = (st', WErr (EIo x)) ->
+  exists b, closed_buf (w_open st) (w_buf st) = Some b /\ w_dest st' ++ w_buf st' = w_dest st ++ b.
+Proof. exact flush_failure_conserves. Qed.
 
 (* unknown-size Root (9 header bytes delivered at once), known-size Parent and a 1-byte binary element held back (4 bytes in the buffer):
    closing Parent splices its id and 1-byte size (65 3, 132) in front of them, and flush() delivers exactly these 8 bytes *)
@@ -102,14 +121,23 @@ Example C10_ex_flush_bytes :
   w_dest (fst (flush st)) = w_dest st ++ [65; 3; 132; 65; 2; 129; 7] /\ snd (flush st) = WOk.
 Proof. vm_compute. repeat split; reflexivity. Qed.
 
-(* an I/O failure during a streaming write: the destination takes 2 bytes, then fails; the 9 header bytes have left the buffer, 2 were
-   delivered, 7 are lost, and the master counts as open *)
-Example C10_ex_io_loss :
+(* an I/O failure during a streaming write (Start Root with unknown size, destination script: take 2 bytes, then fail with code 5, then
+   accept): the call returns the I/O error, the master counts as open, 2 of the 9 header bytes were delivered and the other 7 are
+   still in the working buffer; a following flush() returns Ok and ends in exactly the state that the same two calls reach over an
+   accepting destination (all 9 bytes delivered); and instead of the flush, a following streaming write (UInt 5 in Root) returns Ok
+   and delivers the 7 retained bytes and then its own 4: the final destination is what the accepting destination gets *)
+Example C10_ex_io_retained :
   let u := {| o_len := None; o_unknown := true |} in
   let st := fst (wstep aw_sp (w_init [WAcc 2; WFail 5]) (OpWrite (TStart 129) u)) in
   snd (wstep aw_sp (w_init [WAcc 2; WFail 5]) (OpWrite (TStart 129) u)) = WErr (EIo (IoCode 5)) /\
-  w_dest st = [129; 1] /\ w_buf st = [] /\ open_ids (w_open st) = [129].
-Proof. exact io_loss_example. Qed.
+  w_dest st = [129; 1] /\ w_buf st = [255; 255; 255; 255; 255; 255; 255] /\ open_ids (w_open st) = [129] /\
+  wstep aw_sp st OpFlush = (fst (wstep aw_sp (fst (wstep aw_sp (w_init []) (OpWrite (TStart 129) u))) OpFlush), WOk) /\
+  w_dest (fst (wstep aw_sp st OpFlush)) = [129; 1; 255; 255; 255; 255; 255; 255; 255] /\
+  run_writer aw_sp [OpWrite (TStart 129) u; OpWrite (TElem 16641 (VU 5)) o_default] [WAcc 2; WFail 5] =
+    ([(WErr (EIo (IoCode 5)), 2%nat); (WOk, 13%nat)], [129; 1; 255; 255; 255; 255; 255; 255; 255; 65; 1; 129; 5]) /\
+  run_writer aw_sp [OpWrite (TStart 129) u; OpWrite (TElem 16641 (VU 5)) o_default] [] =
+    ([(WOk, 9%nat); (WOk, 13%nat)], [129; 1; 255; 255; 255; 255; 255; 255; 255; 65; 1; 129; 5]).
+Proof. exact io_retained_example. Qed.
 
 Example C10_ex :
   let sp := [ {| e_id := 129; e_ty := DMaster; e_path := [] |}; {| e_id := 16643; e_ty := DMaster; e_path := [PId 129] |};
@@ -119,6 +147,99 @@ Example C10_ex :
   map snd (snd (wrun sp (w_init []) [OpWrite (TStart 129) u; OpWrite (TStart 16643) o_default; OpWrite (TElem 16642 (VB [7])) o_default;
                                     OpWrite (TEnd 16643) o_default; OpFlush])) = [9; 9; 9; 16; 16]%nat.
 Proof. vm_compute. reflexivity. Qed.
+
+(* ---- I/O errors lose nothing (fix D28) *)
+
+(* Vocabulary (Proofs/WriterIO.v).  [res_rel r r0]: r = r0, or r0 = WOk and r is an I/O error.  [row_rel (r, n) (r0, n0)]:
+   res_rel r r0 and n <= n0.  [shift_open k o]: the open masters o with the start offset of every known-size master increased by k
+   (ids, size widths, order and unknown-size masters unchanged).  [io_rel st st0]: the script of st0 is empty (st0's destination
+   accepts everything) and for some bytes [pre]: w_buf st = pre ++ w_buf st0, w_dest st0 = w_dest st ++ pre and
+   w_open st = shift_open (length pre) (w_open st0) — st is st0 with the last bytes of st0's destination still at the front of the
+   working buffer.  [with_script st []] (Proofs/WriteScripts.v): st over the destination that accepts everything. *)
+
+(* one call, from the same state, against any destination (st, any remaining script) and against the accepting one: for every
+   call, state and specification, and whatever the two calls return (success, any error, panic): the open masters are the same; the
+   accepting run's working buffer is a suffix of the other one's, and what precedes it there ([rest]) is exactly what the accepting
+   destination has received in addition; so delivered bytes ++ working buffer is the same in both; and the verdicts are equal, or
+   the accepting run succeeded and the other one reports an I/O error.  Buffering decisions never depend on delivery, and delivery
+   never drops bytes *)
+Theorem C10_nothing_lost_step : forall sp st op st' r st0' r0,
+  wstep sp st op = (st', r) -> wstep sp (with_script st []) op = (st0', r0) ->
+  w_open st' = w_open st0' /\
+  (exists rest, w_buf st' = rest ++ w_buf st0' /\ w_dest st0' = w_dest st' ++ rest) /\
+  w_dest st' ++ w_buf st' = w_dest st0' ++ w_buf st0' /\
+  res_rel r r0.
+Proof. exact nothing_lost_step. Qed.
+
+(* the same from related states (bytes retained by earlier I/O errors): one call keeps the states related and gives related verdicts *)
+Theorem C10_nothing_lost_step_rel : forall sp st st0 op st' r st0' r0, io_rel st st0 ->
+  wstep sp st op = (st', r) -> wstep sp st0 op = (st0', r0) -> io_rel st' st0' /\ res_rel r r0.
+Proof. exact wstep_rel. Qed.
+
+(* run level: for every specification, call sequence and destination script, the run (st, rs) against that destination and the run
+   (st0, rs0) against the accepting destination satisfy — with NO side condition (panics included: both runs stop at the same call):
+   the accepting run's working buffer is a suffix of the other one's, the bytes [rest] in front of it are exactly the last bytes of
+   the accepting destination, and the open masters are the same up to the start offsets of known-size masters, which are larger by
+   length rest; delivered ++ buffered is the same; the ids of the open masters and whether a known-size one is open are the same; the
+   open masters are equal when none has a known size; and the result lists have the same length and are related call by call: same
+   verdict or an I/O error instead of Ok (never another difference), and never more bytes delivered *)
+Theorem C10_io_error_loses_nothing : forall sp ops script st rs st0 rs0,
+  wrun sp (w_init script) ops = (st, rs) -> wrun sp (w_init []) ops = (st0, rs0) ->
+  (exists rest, w_buf st = rest ++ w_buf st0 /\ w_dest st0 = w_dest st ++ rest /\
+                w_open st = shift_open (length rest) (w_open st0)) /\
+  w_dest st ++ w_buf st = w_dest st0 ++ w_buf st0 /\
+  open_ids (w_open st) = open_ids (w_open st0) /\ has_known (w_open st) = has_known (w_open st0) /\
+  (has_known (w_open st0) = false -> w_open st = w_open st0) /\
+  Forall2 row_rel rs rs0.
+Proof. exact io_error_loses_nothing. Qed.
+
+(* the plain equality w_open st = w_open st0 fails while a known-size master is open that was started with retained bytes in the
+   buffer: the destination fails at once, Start Root (unknown size) keeps its 9 bytes buffered, Start Parent (known size) then starts
+   at offset 9 instead of 0 — everything else agrees, and the flush delivers the same 12 bytes in both runs *)
+Example C10_io_open_offset_counterexample :
+  let u := {| o_len := None; o_unknown := true |} in
+  let ops := [OpWrite (TStart 129) u; OpWrite (TStart 16643) o_default] in
+  w_open (fst (wrun aw_sp (w_init [WFail 5]) ops)) = [(16643, WKnown 9, O); (129, WUnknown, O)] /\
+  w_open (fst (wrun aw_sp (w_init []) ops)) = [(16643, WKnown 0, O); (129, WUnknown, O)] /\
+  map fst (snd (wrun aw_sp (w_init [WFail 5]) ops)) = [WErr (EIo (IoCode 5)); WOk] /\
+  run_writer aw_sp (ops ++ [OpFlush]) [WFail 5] =
+    ([(WErr (EIo (IoCode 5)), 0%nat); (WOk, 0%nat); (WOk, 12%nat)], snd (run_writer aw_sp (ops ++ [OpFlush]) [])) /\
+  snd (run_writer aw_sp (ops ++ [OpFlush]) []) = [129; 1; 255; 255; 255; 255; 255; 255; 255; 65; 3; 128].
+Proof. vm_compute. repeat split; reflexivity. Qed.
+
+(* a run whose LAST call returned Ok (then no call panicked) and after which no known-size master is open has an empty working buffer *)
+Theorem C10_drained_run : forall sp ops st st' rs, ops <> [] -> wrun sp st ops = (st', rs) ->
+  fst (last rs (WPanic, O)) = WOk -> has_known (w_open st') = false -> w_buf st' = [].
+Proof. exact wrun_drained. Qed.
+
+(* a later success delivers everything: if the last call of a non-empty call sequence returned Ok against the given destination —
+   whatever happened before, I/O errors included — and no known-size master is open afterwards (always so after flush()/into_inner()),
+   then both working buffers are empty and the destination holds exactly the bytes the accepting destination holds; the open
+   masters are equal too *)
+Theorem C10_retry_delivers : forall sp ops script st rs st0 rs0,
+  wrun sp (w_init script) ops = (st, rs) -> wrun sp (w_init []) ops = (st0, rs0) ->
+  ops <> [] -> fst (last rs (WPanic, O)) = WOk -> has_known (w_open st) = false ->
+  w_buf st = [] /\ w_buf st0 = [] /\ w_dest st = w_dest st0 /\ w_open st = w_open st0.
+Proof. exact retry_delivers. Qed.
+
+(* state form: whenever the working buffer is empty after a run, the destination holds exactly what the accepting one holds *)
+Theorem C10_empty_buffer_same_dest : forall sp ops script st rs st0 rs0,
+  wrun sp (w_init script) ops = (st, rs) -> wrun sp (w_init []) ops = (st0, rs0) ->
+  w_buf st = [] -> w_dest st = w_dest st0 /\ w_buf st0 = [] /\ w_open st = w_open st0.
+Proof. exact empty_buffer_same_dest. Qed.
+
+(* a destination that takes 2 bytes, fails (code 5), fails (code 6), takes 3 bytes, fails (code 7) and accepts from then on: Start Root
+   (unknown size), UInt 5 and a first flush() report these three I/O errors with 2, 2 and 5 bytes delivered; the second flush() returns
+   Ok and the destination then holds the 13 bytes that the accepting destination holds *)
+Example C10_ex_retry :
+  let u := {| o_len := None; o_unknown := true |} in
+  let ops := [OpWrite (TStart 129) u; OpWrite (TElem 16641 (VU 5)) o_default; OpFlush; OpFlush] in
+  run_writer aw_sp ops [WAcc 2; WFail 5; WFail 6; WAcc 3; WFail 7] =
+    ([(WErr (EIo (IoCode 5)), 2%nat); (WErr (EIo (IoCode 6)), 2%nat); (WErr (EIo (IoCode 7)), 5%nat); (WOk, 13%nat)],
+     snd (run_writer aw_sp ops [])) /\
+  run_writer aw_sp ops [] =
+    ([(WOk, 9%nat); (WOk, 13%nat); (WOk, 13%nat); (WOk, 13%nat)], [129; 1; 255; 255; 255; 255; 255; 255; 255; 65; 1; 129; 5]).
+Proof. vm_compute. repeat split; reflexivity. Qed.
 
 (* ---- snapshots: the delivered bytes while masters are open *)
 
